@@ -15,6 +15,14 @@ LEAVES = [
      [P("record_ttl", "record_ttl"), P("record_type", "record_type")], "bool", {"nat": True}),
     ("Cache", "is_address_type", "_handlers/record_manager.py", "RecordManager.async_updates_from_response", ("if", "_ADDRESS_RECORD_TYPES", 0),
      [P("record_type", "record_type")], "bool", {"nat": True}),
+    # the listener set is copied before it is iterated (callbacks may add/remove listeners)
+    ("Cache", "updates_iterates_copy", "_handlers/record_manager.py", "RecordManager.async_updates", ("has_call", "listeners.copy", 1),
+     [], "bool", {}),
+    ("Cache", "complete_iterates_copy", "_handlers/record_manager.py", "RecordManager.async_updates_complete", ("has_call", "listeners.copy", 1),
+     [], "bool", {}),
+    # D18 repair: removing a listener that is not registered (set.remove -> KeyError) is caught
+    ("Cache", "remove_listener_catches_keyerror", "_handlers/record_manager.py", "RecordManager.async_remove_listener", ("except_catches", "KeyError"),
+     [], "bool", {}),
     # ---- _services/browser.py (callback side only; the scheduler belongs to C10)
     ("Cache", "enqueue_test", "_services/browser.py", "_ServiceBrowserBase._enqueue_callback", ("if", "state_change", 0),
      [P("state_change is SERVICE_STATE_CHANGE_ADDED", "is_added", "bool"),
